@@ -14,6 +14,7 @@ import (
 	"github.com/criyle/go-sandbox/container"
 	"github.com/criyle/go-sandbox/pkg/forkexec"
 	"github.com/criyle/go-sandbox/pkg/mount"
+	"github.com/criyle/go-sandbox/pkg/rlimit"
 	"github.com/criyle/go-sandbox/runner"
 	"golang.org/x/sys/unix"
 	"verif/mc"
@@ -348,7 +349,10 @@ func c04container(x *mc.X, myNS map[string]string) {
 		ucg = x.Bool("unshare-cgroup-before-exec")
 		keepNet = x.Bool("custom-clone-flags(no-net)")
 	}
-	desc := fmt.Sprintf("container cred=%d names=%v workdir=%v seccomp=%v cgroup-before-exec=%v sync-after=%v into-cgroup=%v keep-net=%v", cred, names, workdir, filter, ucg, syncAfter, intoCgroup, keepNet)
+	// history: the container has already served a launch whose per-launch options were the complement of this one's
+	// (filter / none, sync mode, cgroup descriptor, limits, environment): nothing of it may carry over
+	prior := x.Bool("prior-launch-with-complementary-options")
+	desc := fmt.Sprintf("container cred=%d names=%v workdir=%v seccomp=%v cgroup-before-exec=%v sync-after=%v into-cgroup=%v keep-net=%v after-complementary-launch=%v", cred, names, workdir, filter, ucg, syncAfter, intoCgroup, keepNet, prior)
 	x.Note("options", desc)
 	if x.Dry() {
 		return
@@ -382,6 +386,33 @@ func c04container(x *mc.X, myNS map[string]string) {
 		root = fmt.Sprintf("/proc/%d/root", ps[len(ps)-1])
 		os.Chmod(root+"/w", 0777)
 		os.Chmod(root+"/tmp", 0777)
+	}
+	if prior {
+		q := execveParam([]string{"/probe/burn", "exit", "0"})
+		q.Env = []string{"PATH=/bin", "LEFTOVER=1"}
+		if !filter {
+			q.Seccomp = allowAll()
+		}
+		q.SyncAfterExec = !syncAfter
+		q.RLimits = (&rlimit.RLimits{OpenFile: 77, Stack: 8 << 20}).PrepareRLimit()
+		var cgf *os.File
+		if !intoCgroup {
+			dir := fmt.Sprintf("/sys/fs/cgroup/unified/verif-c04p-%d-%s", os.Getpid(), newNonce())
+			if os.Mkdir(dir, 0755) == nil {
+				defer syscall.Rmdir(dir)
+				if cgf, _ = os.Open(dir); cgf != nil {
+					q.CgroupFD = cgf.Fd()
+				}
+			}
+		}
+		qr := c.Execve(context.Background(), q)
+		if cgf != nil {
+			cgf.Close()
+		}
+		if qr.Status != runner.StatusNormal {
+			x.Failf("C04/harness", "%s: the prior launch ended %v %s", desc, qr.Status, qr.Error)
+			return
+		}
 	}
 	p := execveParam([]string{"/probe/report", "--outfile=/w/r.json", "--wait", "--in=0"})
 	pr, pw, _ := os.Pipe()
@@ -462,6 +493,12 @@ func c04container(x *mc.X, myNS map[string]string) {
 	chk(rep.Securebits&1 != 0, "noroot-not-set", "securebits %#x lack SECBIT_NOROOT", rep.Securebits)
 	chk(rep.NoNewPrivs == 1, "no-new-privs", "no_new_privs=%d", rep.NoNewPrivs)
 	chk((rep.Seccomp == 2) == filter, "seccomp-mode", "seccomp mode %d, filter given: %v", rep.Seccomp, filter)
+	if prior && len(rep.Rlimits) > unix.RLIMIT_NOFILE {
+		chk(rep.Rlimits[unix.RLIMIT_NOFILE][0] != 77, "limit-of-prior-launch", "the open-file limit 77 of the prior launch is in force in this one")
+	}
+	if !intoCgroup && prior {
+		chk(!strings.Contains(member, "verif-c04p-"), "cgroup-of-prior-launch", "the program sits in the cgroup %q given to the prior launch", member)
+	}
 	wantU, wantG := 0, 0
 	switch cred {
 	case 1:
@@ -470,6 +507,13 @@ func c04container(x *mc.X, myNS map[string]string) {
 		wantU, wantG = 1234, 2345
 	}
 	chk(rep.UID == [3]int{wantU, wantU, wantU} && rep.GID == [3]int{wantG, wantG, wantG}, "ids", "uids %v gids %v, expected %d/%d", rep.UID, rep.GID, wantU, wantG)
+	if cred != 0 {
+		// the credential generator asks for a uid and a gid and for no supplementary groups: the program must not keep the
+		// groups of the process that built the container (the launching worker has groups of its own, see Init)
+		g := append([]int{}, rep.Groups...)
+		sort.Ints(g)
+		chk(len(g) == 0, "groups-kept", "the program runs as %d/%d but keeps supplementary groups %v of the builder (seen through the container's gid map)", wantU, wantG, g)
+	}
 	chk(rep.Sid == rep.Pid, "session", "sid %d != pid %d", rep.Sid, rep.Pid)
 	wantCwd, wantHost, wantDom := "/w", "go-sandbox", "go-sandbox"
 	if workdir {
